@@ -9,7 +9,7 @@ DIMS = [
  ("nest", ["module", "class", "class-in-class"]),
  ("decos", ["plain", "extra-decorator-above", "multi-line-decorator-call"]),
  ("async", ["def", "async def"]),
- ("sig", ["one-line", "one-param-per-line", "closing-paren-own-line", "trailing-comma"]),
+ ("sig", ["one-line", "one-param-per-line", "closing-paren-own-line", "trailing-comma", "parameters-at-column-0-of-continuation-lines"]),
  ("annot", ["none", "annotations-and-defaults"]),
  ("markers", ["none", "positional-only", "keyword-only"]),
  ("strform", ['"x"', "'x'", '"""x"""', 'r"x"', "implicit-concatenation", "parenthesised", 'r"""x"""', "R\'\'\'x\'\'\'", "u'x'", 'U"""x"""']),
@@ -18,6 +18,8 @@ DIMS = [
  ("nonascii", ["none", "default-value-é-before-token", "default-value-emoji-before-token", "non-ascii-parameter-before-token", "non-ascii-class-name", "non-ascii-in-usefixtures-before"]),
  ("collide", ["none", "test-name-contains-fixture-name", "dependent-fixture-name-contains-fixture-name"]),
  ("body", ["return", "yield", "yield-keyword-on-a-later-line-than-its-statement"]),
+ ("indirect", ["none", "indirect=True, second of two names in one string", "indirect list, names in one string with spaces", "indirect=True, names as a tuple"]),
+ ("col0", ["none", "usefixtures string at column 0 of a continuation line", "body use at column 0 inside parentheses"]),
  ("depsig", ["one-line", "one-param-per-line", "closing-paren-own-line", "first-param-on-def-line"]),
 ]
 
@@ -78,7 +80,16 @@ def build(a):
     sf = a["strform"]
     lit = ['"fx_name"', "'fx_name'", '"""fx_name"""', 'r"fx_name"', '"fx_" "name"', '("fx_name")', 'r"""fx_name"""', "R'''fx_name'''", "u'fx_name'", 'U"""fx_name"""'][sf]
     pre = '"é_other", ' if a["nonascii"] == 5 else ""
-    L.append(I + "@pytest.mark.usefixtures(%s%s)" % (pre, lit))
+    if a["indirect"] == 1:
+        L.append(I + '@pytest.mark.parametrize("extra, fx_name", [("x", 2)], indirect=True)')
+    elif a["indirect"] == 2:
+        L.append(I + '@pytest.mark.parametrize("extra , fx_name", [("x", 2)], indirect=["fx_name"])')
+    elif a["indirect"] == 3:
+        L.append(I + '@pytest.mark.parametrize(("extra", "fx_name"), [("x", 2)], indirect=True)')
+    if a["col0"] == 1:
+        L.append(I + "@pytest.mark.usefixtures(%s" % pre); L.append(lit); L.append(I + ")")
+    else:
+        L.append(I + "@pytest.mark.usefixtures(%s%s)" % (pre, lit))
     tname = "test_fx_name_user" if a["collide"] == 1 else "test_one"
     before = {0: None, 1: 'other="é"', 2: 'other="🙂"', 3: "ñame", 4: None, 5: None}[a["nonascii"]]
     main = "fx_name: int" if a["annot"] == 1 else "fx_name"
@@ -110,15 +121,23 @@ def build(a):
             L.append(I + unit + p + ",")
         L.append(I + unit + plist[-1])
         L.append(I + "):")
-    else:
+    elif s == 3:
         L.append(I + "def %s(" % tname)
         for p in plist:
             L.append(I + unit + p + ",")
         L.append(I + "):")
+    else:
+        L.append(I + "def %s(" % tname)
+        for p in plist:
+            L.append(p + ",")
+        L.append(I + "):")
     L.append(I + unit + "pass")
     L.append("")
     L.append(I + "def test_body(%s):" % self_)
-    L.append(I + unit + 'label = "é"; fx_name.attr' if a["nonascii"] in (1, 2) else I + unit + "fx_name.attr")
+    if a["col0"] == 2:
+        L.append(I + unit + "print("); L.append("fx_name.attr"); L.append(I + unit + ")")
+    else:
+        L.append(I + unit + 'label = "é"; fx_name.attr' if a["nonascii"] in (1, 2) else I + unit + "fx_name.attr")
     L.append("")
     eol = "\r\n" if a["eol"] == 1 else "\n"
     return eol.join(L) + eol
